@@ -649,6 +649,18 @@ def confusion_before_inversion_rule(ctx, rid):
                 for x in ast.walk(h):
                     if isinstance(x, ast.Call) and call_name(x) in ('_confuse_result', '_confuse_results') and c_pos is None:
                         c_pos = k
+                    # the inversion handed to a helper: a call whose callee (module-level function or own method) XORs, given a mask-derived argument
+                    if isinstance(x, ast.Call) and i_pos is None:
+                        tgt = None
+                        if isinstance(x.func, ast.Name):
+                            tgt = ci.mod.defs.get(x.func.id)
+                        elif isinstance(x.func, ast.Attribute) and isinstance(x.func.value, ast.Name) and x.func.value.id == 'self':
+                            r_ = repo.find_method(ci, x.func.attr)
+                            tgt = r_[1] if r_ else None
+                        if isinstance(tgt, ast.FunctionDef) and any((isinstance(y, ast.AugAssign) and isinstance(y.op, ast.BitXor)) or (isinstance(y, ast.BinOp) and isinstance(y.op, ast.BitXor))
+                                                                    for y in ast.walk(tgt)) \
+                                and any(mask_derived(a_) for a_ in list(x.args) + [k_.value for k_ in x.keywords]):
+                            i_pos = k
             # an inversion: a XOR (binary or augmented) that is controlled by / combined with a value derived from the invert mask
             if isinstance(st, ast.AugAssign) and isinstance(st.op, ast.BitXor):
                 from ..flow import enclosing_tests
